@@ -286,9 +286,11 @@ func (c *Collection) PullID(ctx context.Context, id string, opts ...ReadOption) 
 	}
 
 	send := make(chan *ValueChange)
+	// subscribe before returning, changes made after PullID returns must not be missed
+	changes := c.Pull(ctx, opts...)
 	go func() {
 		defer close(send)
-		for change := range c.Pull(ctx, opts...) {
+		for change := range changes {
 			if change.Id != id {
 				continue
 			}
